@@ -334,8 +334,28 @@ impl W {
         let dir = self.tmp.join("script");
         std::fs::create_dir_all(&dir).map_err(|e| ("io".to_string(), e.to_string()))?;
         std::fs::write(dir.join("pkg.roto"), &main_text).map_err(|e| ("io".to_string(), e.to_string()))?;
-        for (n, t) in fs.iter().skip(1) {
-            std::fs::write(dir.join(format!("{n}.roto")), t).map_err(|e| ("io".to_string(), e.to_string()))?;
+        let linked = self.tmp.join("linked");
+        let _ = std::fs::remove_dir_all(&linked);
+        for (i, (n, t)) in fs.iter().enumerate().skip(1) {
+            let io = |e: std::io::Error| ("io".to_string(), e.to_string());
+            // a module is `n.roto`, `n/mod.roto`, or one of the two reached through a symbolic link
+            match (main_text.len() + i) % 5 {
+                2 => {
+                    std::fs::create_dir_all(dir.join(n)).map_err(io)?;
+                    std::fs::write(dir.join(n).join("mod.roto"), t).map_err(io)?;
+                }
+                3 => {
+                    std::fs::create_dir_all(linked.join(n)).map_err(io)?;
+                    std::fs::write(linked.join(n).join("mod.roto"), t).map_err(io)?;
+                    std::os::unix::fs::symlink(linked.join(n), dir.join(n)).map_err(io)?;
+                }
+                4 => {
+                    std::fs::create_dir_all(&linked).map_err(io)?;
+                    std::fs::write(linked.join(format!("{n}.txt")), t).map_err(io)?;
+                    std::os::unix::fs::symlink(linked.join(format!("{n}.txt")), dir.join(format!("{n}.roto"))).map_err(io)?;
+                }
+                _ => std::fs::write(dir.join(format!("{n}.roto")), t).map_err(io)?,
+            }
         }
         if c.chance(150) {
             // directories without a mod.roto are not modules: what they hold does not belong to the script,
